@@ -644,7 +644,20 @@ pub fn gen_case(t: &mut Tape, excl: &Excl) -> Case {
     let targs = sig.trait_args();
     let self_ty = sig.self_ty();
     let mut real = header();
-    real.push_str(&format!("#[::entrait::entrait({attr})]\n{fn_src}\n\n"));
+    // the fn may come out of a `macro_rules!` expansion that is handed the trait's name (`$t:ident`) and the dependency's
+    // type (`$d:ty`, which reaches the attribute macro inside a group with invisible delimiters) from the call site
+    let from_macro = matches!(sig.deps, Deps::RefImpl | Deps::ValImpl | Deps::ConcreteRef | Deps::ConcreteVal) && t.chance(1, 6);
+    if from_macro {
+        let dparam = sig.deps_param().unwrap_or_default();
+        let dty = dparam.trim_start_matches("deps: ").to_string();
+        let attr_m = attr.replacen("TheTrait", "$t", 1);
+        real.push_str(&format!(
+            "macro_rules! __mk_the_fn {{ ($t:ident, $d:ty) => {{\n#[::entrait::entrait({attr_m})]\n{}\n}} }}\n__mk_the_fn!(TheTrait, {dty});\n\n",
+            fn_src.replacen(&dparam, "deps: $d", 1)
+        ));
+    } else {
+        real.push_str(&format!("#[::entrait::entrait({attr})]\n{fn_src}\n\n"));
+    }
     if !sig.is_async {
         // (an async fn's return type cannot be named in a fn-pointer type: the call witness carries the Output ascription instead)
         real.push_str(&format!(
@@ -694,6 +707,9 @@ pub fn gen_case(t: &mut Tape, excl: &Excl) -> Case {
     }
     if sig.deps_param_pos > 0 && matches!(sig.deps, Deps::RefGeneric | Deps::ValGeneric) && (sig.has_gen || sig.has_const) {
         classes.push("deps_type_parameter_not_declared_first");
+    }
+    if from_macro {
+        classes.push("fn_from_macro_rules_with_ty_and_ident_fragments");
     }
     if sig.extra_where.is_some() {
         classes.push("where_predicate_on_non_parameter_type");
